@@ -180,3 +180,264 @@ def an_frame(sub, payload, unit, tag, res):
     writes = frame.shared_state_writes(it, payload.get("_shared"))
     sub.decided(f"{payload['prop']}/{unit}/{tag}/no-write-to-shared-state", not writes, function=_fn(unit), kind="frame",
                 backend="effect-log", detail={"writes": writes[:5], "effects_logged": len(it.effects)})
+
+
+# ---------------------------------------------------------------------------------------------------
+# C20: spare / blank / reserved areas, dependency sets, blank => missing, preconditions not strengthened
+# ---------------------------------------------------------------------------------------------------
+SPARE_NAMES = ("spare", "blanks", "blank", "reserved", "system_reserve", "local_use_segment")
+
+
+def is_spare_name(name):
+    if not isinstance(name, str):
+        return False
+    return any(name == s or (name.startswith(s) and name[len(s):].strip("_0123456789") == "") for s in SPARE_NAMES)
+
+
+def split_offset(t):
+    """(constant part, canonical text of the symbolic rest) of an integer offset term"""
+    t = z3.simplify(t)
+    if z3.is_int_value(t):
+        return t.as_long(), ""
+    if z3.is_app(t) and t.decl().kind() == z3.Z3_OP_ADD:
+        c = 0
+        rest = []
+        for ch in t.children():
+            if z3.is_int_value(ch):
+                c += ch.as_long()
+            else:
+                rest.append(ch)
+        r = z3.simplify(z3.Sum(rest)) if len(rest) > 1 else rest[0]
+        return c, r.sexpr()
+    return 0, t.sexpr()
+
+
+def spare_areas(it):
+    """[(offset s-expr, width s-expr, name)] of the leaves that the declarations mark as spare / blank / reserved"""
+    out = []
+    for lf in getattr(it, "all_leaves", []):
+        name = next((p for p in reversed(lf.path) if isinstance(p, str) and p != "[k]"), None)
+        if is_spare_name(name):
+            out.append([z3.simplify(as_int_term(lf.off)).sexpr(), z3.simplify(as_int_term(lf.width)).sexpr(),
+                        ".".join(map(str, lf.path))])
+    return out
+
+
+INPUT_FUNCS = {"ascii_text": (1, 2), "be_uint": (1, 2), "raw_bytes": (1, 2), "byte_at": (1, None)}
+
+
+def input_atoms(terms, descend=True):
+    """applications of the byte-reading functions in the given terms: {id: (name, offset term, width term)};
+    descend=False: not those that only occur inside the offset / width argument of another one"""
+    out = {}
+    seen = set()
+    stack = list(terms)
+    while stack:
+        x = stack.pop()
+        i = x.get_id()
+        if i in seen:
+            continue
+        seen.add(i)
+        if z3.is_app(x):
+            nm = x.decl().name()
+            if nm in INPUT_FUNCS and x.decl().kind() == z3.Z3_OP_UNINTERPRETED:
+                oi, wi = INPUT_FUNCS[nm]
+                out[i] = (nm, x.arg(oi), x.arg(wi) if wi is not None else z3.IntVal(1), x)
+                if not descend:
+                    continue
+            stack.extend(x.children())
+        elif z3.is_quantifier(x):
+            stack.append(x.body())
+    return out
+
+
+def _case_for(tc, res):
+    P_list = [z3.simplify(c).sexpr() for c in tables.fork_conditions(res.path)]
+    P_when = set(P_list)
+    for T in tc.table["cases"]:
+        if set(T["when"]) == P_when:
+            return T
+    # no syntactically identical case (operand order of commutative terms may differ): first overlapping case with
+    # the same outcome
+    want = "return" if res.outcome == "return" else "raise"
+    hyps = path_hyps(res.path)
+    for T in tc.table["cases"]:
+        if T["outcome"] != want:
+            continue
+        kind, _ = tc.overlap(P_list, res.path, T, hyps)
+        if kind != "disjoint":
+            return T
+    return None
+
+
+def _checker(sub, unit, prop):
+    tc = _CHECKERS.get(unit)
+    if tc is None:
+        tc = _CHECKERS[unit] = tables.TableChecker(sub, unit, f"{prop}/{unit}", function=_fn(unit))
+    tc.ses = sub
+    return tc
+
+
+def an_deps(sub, payload, unit, tag, res):
+    """non-interference: no output term and no branch condition of a returning path reads a byte of an area that the
+    specification marks as spare / blank / reserved"""
+    if res.outcome != "return":
+        return
+    prop = payload["prop"]
+    fn = _fn(unit)
+    tc = _checker(sub, unit, prop)
+    T = _case_for(tc, res)
+    pid = f"{prop}/{unit}/{tag}"
+    if T is None or "spares" not in T:
+        sub.decided(f"{pid}/spare-areas-known", False, function=fn, detail={"problem": "no specification case for this path"})
+        return
+    it = res.extra["it"]
+    atoms = {}
+    actx = {}
+    for t, ctx in list(getattr(it, "dump_term_ctx", [])) + [(c, ()) for c in tables.fork_conditions(res.path)]:
+        found = input_atoms([t])
+        for i, a in found.items():
+            if i not in atoms:
+                atoms[i] = a
+                actx[i] = ctx
+    decls = tc.decls(res.path.pc)
+    spares = []
+    for off_s, w_s, name in T["spares"]:
+        o = tables.parse_term(off_s, decls)
+        w = tables.parse_term(w_s, decls)
+        spares.append((split_offset(o), o, w, name))
+    groups = {}
+    gctx = {}
+    for i, (nm, off, w, app) in atoms.items():
+        c, rest = split_offset(off)
+        ctx = actx[i]
+        key = (rest, tuple((k.get_id(), n.get_id()) for k, n in ctx))
+        groups.setdefault(key, []).append((c, off, w, nm))
+        gctx[key] = ctx
+    base = path_hyps(res.path)
+    bad = []
+    undecided_pairs = []
+    n_pairs = 0
+    skipped = 0
+    for (sc, srest), so, sw, sname in spares:
+        swv = z3.simplify(sw)
+        for gkey, items in groups.items():
+            rest = gkey[0]
+            if rest == srest and z3.is_int_value(swv):
+                lo_s, hi_s = sc, sc + swv.as_long()
+                for c, off, w, nm in items:
+                    n_pairs += 1
+                    wv = z3.simplify(w)
+                    if not z3.is_int_value(wv):
+                        undecided_pairs.append((off, w, so, sw, sname, gctx[gkey]))
+                        continue
+                    if c < hi_s and lo_s < c + wv.as_long():
+                        bad.append({"reads": f"{nm}@{c}+{wv.as_long()} ({rest[:60]})", "spare": sname})
+            elif rest == srest:
+                for c, off, w, nm in items:  # same base, symbolic spare width (length-dependent padding)
+                    n_pairs += 1
+                    undecided_pairs.append((off, w, so, sw, sname, gctx[gkey]))
+            elif not gctx[gkey]:
+                # fixed-position reads against an area with another symbolic base: different records, whose spans are
+                # disjoint by record framing (C05) — not re-proved here
+                skipped += 1
+            else:
+                # array elements (symbolic index) against a spare area: one obligation per read
+                for c, off, w, nm in items:
+                    n_pairs += 1
+                    undecided_pairs.append((off, w, so, sw, sname, gctx[gkey]))
+    sub.decided(f"{pid}/no-read-of-spare-areas", not bad, function=fn, kind="frame", backend="interval-arithmetic",
+                detail={"overlaps": bad[:5], "pairs_decided_concretely": n_pairs - len(undecided_pairs), "spare_areas": len(spares),
+                        "cross_record_pairs_left_to_framing": skipped,
+                        "input_atoms": len(atoms)})
+    k = 0
+    for lo, wd, so, sw, sname, ctx in undecided_pairs:
+        k += 1
+        goal = z3.Or(lo + wd <= so, so + sw <= lo, sw <= 0, wd <= 0)
+        rng = [c_ for kk, nn in ctx for c_ in (kk >= 0, kk < nn)]
+        sub.prove(f"{pid}/reads-disjoint-from/{sname}", base + rng, goal, function=fn, kind="frame", sliced=True,
+                  detail={"reads": str(z3.simplify(lo))[:200], "width": str(z3.simplify(wd))[:100], "spare": str(z3.simplify(so))[:200]})
+    sub.extra_coverage["spare_pairs"] = n_pairs
+
+
+def an_wf(sub, payload, unit, tag, res):
+    """the code may not demand more of the input than the specification does: every input excluded on this path
+    (a field decoder raised) is excluded by the specification's well-formedness assumptions too"""
+    prop = payload["prop"]
+    fn = _fn(unit)
+    tc = _checker(sub, unit, prop)
+    T = _case_for(tc, res)
+    pid = f"{prop}/{unit}/{tag}"
+    wf = [(k, m, c) for k, m, c in getattr(res.path, "wf_assumptions", [])
+          if k != "file-long-enough" and "!" not in z3.simplify(c).sexpr()]  # '!': generic element of a trial parse
+    if T is None:
+        return
+    spec = {a for a in T.get("assumes", []) if "!" not in a}
+    extra = [(k, m, c) for k, m, c in wf if z3.simplify(c).sexpr() not in spec]
+    sub.decided(f"{pid}/preconditions-as-specified", True, function=fn, kind="safety", backend="term-identity",
+                detail={"assumptions": len(wf), "identical_to_specification": len(wf) - len(extra)})
+    if extra:
+        decls = tc.decls(res.path.pc)
+        hyp = [tables.parse_term(a, decls) for a in sorted(spec)]
+        for k, m, c in extra[:40]:
+            sub.prove(f"{pid}/precondition-not-strengthened/{k}", hyp, c, function=fn, kind="safety",
+                      detail={"field": k, "decoder_raises": m, "excluded_inputs": str(z3.simplify(z3.Not(c)))[:300]})
+
+
+def _pure_decode(t):
+    """the term selects / converts one field's text without arithmetic on it (ite, comparisons, py_int, py_strip)"""
+    ok_kinds = {z3.Z3_OP_ITE, z3.Z3_OP_EQ, z3.Z3_OP_NOT, z3.Z3_OP_AND, z3.Z3_OP_OR, z3.Z3_OP_UNINTERPRETED, z3.Z3_OP_ANUM,
+                z3.Z3_OP_UMINUS, z3.Z3_OP_TRUE, z3.Z3_OP_FALSE, z3.Z3_OP_DISTINCT}
+    stack = [t]
+    seen = set()
+    while stack:
+        x = stack.pop()
+        if x.get_id() in seen:
+            continue
+        seen.add(x.get_id())
+        if not z3.is_app(x):
+            return False
+        k = x.decl().kind()
+        if k not in ok_kinds:
+            return False
+        if k == z3.Z3_OP_UNINTERPRETED and x.decl().name() in INPUT_FUNCS:
+            continue
+        stack.extend(x.children())
+    return True
+
+
+def _float_like(t):
+    return t.sort().kind() == z3.Z3_FLOATING_POINT_SORT
+
+
+def an_blank(sub, payload, unit, tag, res):
+    """blank field => NaN (float) / -1 (integer): for every output leaf that decodes exactly one text field"""
+    if res.outcome != "return":
+        return
+    prop = payload["prop"]
+    fn = _fn(unit)
+    pid = f"{prop}/{unit}/{tag}"
+    base = [h for h in path_hyps(res.path) if not z3.is_quantifier(h)]
+    n_f = n_i = 0
+    done = set()
+    for t in res.extra.get("terms", []):
+        if t.get_id() in done:
+            continue
+        done.add(t.get_id())
+        atoms = input_atoms([t], descend=False)
+        texts = [a for a in atoms.values() if a[0] == "ascii_text"]
+        if len(atoms) != 1 or len(texts) != 1:
+            continue
+        f = texts[0][3]
+        blank = ops.IS_EMPTY(ops.STRIP(f))
+        s = t.sexpr()
+        if _float_like(t):
+            n_f += 1
+            sub.prove(f"{pid}/blank-is-NaN/{texts[0][1]}", [blank], z3.fpIsNaN(t), function=fn, kind="post",
+                      detail={"term": s[:200]})
+        elif t.sort() == z3.IntSort() and "py_int" in s and _pure_decode(t):
+            n_i += 1
+            sub.prove(f"{pid}/blank-is-minus-one/{texts[0][1]}", [blank], t == -1, function=fn, kind="post",
+                      detail={"term": s[:200]})
+    sub.extra_coverage["blank_float_leaves"] = n_f
+    sub.extra_coverage["blank_int_leaves"] = n_i
